@@ -625,7 +625,6 @@ Proof.
     unfold bind, guard in H. destruct (negb (Nat.eqb caller Module)) eqn:G; [|discriminate]. decode.
     destruct (tk s t) as [b|] eqn:Tk; [|inversion H; subst; apply same_ok; exact I].
     destruct (tb_heavy b); [discriminate|].
-    destruct (tb_false b); [inversion H; subst; apply same_ok; exact I|].
     apply good_step_ok; [exact I|].
     pose proof (erc_transfer_nn _ _ _ _ _ _ _ (inv_nn _ I) H) as N.
     apply erc_transfer_spec in H as [F [X [Eb [B [S Es]]]]].
